@@ -424,3 +424,350 @@ func ruleC05GetTask(cx *Ctx) {
 		cx.R.Check(okZ && put != nil && len(fields) == 4, rule, funcName(pt), "all fields cleared before Put", cx.P.Pos(pt.Pos()), fmt.Sprintf("cleared %d of 4 fields", len(fields)))
 	}
 }
+
+// ---------------------------------------------------------------------------------------------------------------
+// C04.exit: size eviction gives up only when there is nothing left to examine
+// ---------------------------------------------------------------------------------------------------------------
+
+func ruleC04Exit(cx *Ctx) {
+	const rule = "C04.exit"
+	cx.R.Rule(rule, 1, "the eviction loop of evictFromMain is left only when weightedSize <= maximum or when both cursors are exhausted in the last queue: no counter, quota or other condition may end it while the cache is over its maximum (the overflow would stay until some later write)")
+	fn := cx.need(rule, "", "policy", "evictFromMain")
+	ws := cx.needField(rule, "", "policy", "weightedSize")
+	mx := cx.needField(rule, "", "policy", "maximum")
+	if fn == nil || ws == nil || mx == nil {
+		return
+	}
+	isSizeGuard := func(v ssa.Value) (bool, bool) { // (is the guard, true means "over the maximum")
+		b, ok := v.(*ssa.BinOp)
+		if !ok {
+			return false, false
+		}
+		fx, fy := fieldOf(b.X), fieldOf(b.Y)
+		switch {
+		case sameField(fx, ws) && sameField(fy, mx) && b.Op.String() == ">":
+			return true, true
+		case sameField(fx, mx) && sameField(fy, ws) && b.Op.String() == "<":
+			return true, true
+		case sameField(fx, ws) && sameField(fy, mx) && b.Op.String() == "<=":
+			return true, false
+		case sameField(fx, mx) && sameField(fy, ws) && b.Op.String() == ">=":
+			return true, false
+		}
+		return false, false
+	}
+	// nilTests: the values a guard list shows to be nil (node.Equals(x, nil) true, x == nil true)
+	nilShown := func(gs []Guard) int {
+		n := 0
+		for _, g := range gs {
+			c, _ := stripNot(g.Cond)
+			truth := g.Truth
+			if c != g.Cond {
+				truth = !truth
+			}
+			if call, ok := c.(*ssa.Call); ok && call.Call.StaticCallee() != nil && origin(call.Call.StaticCallee()).Name() == "Equals" && len(call.Call.Args) == 2 && isNilConst(stripConv(call.Call.Args[1])) && truth {
+				n++
+			}
+			if _, isNil, ok := nilCmp(c); ok && isNil == truth {
+				n++
+			}
+		}
+		return n
+	}
+	var exitOK func(f *ssa.Function, from, to *ssa.BasicBlock, depth int) (bool, string)
+	exitOK = func(f *ssa.Function, from, to *ssa.BasicBlock, depth int) (bool, string) {
+		gs := append(append([]Guard{}, guardsAt(from)...), guardsOnEdge(from, to)...)
+		for _, g := range gs {
+			if is, over := isSizeGuard(g.Cond); is && over != g.Truth {
+				return true, ""
+			}
+		}
+		if nilShown(gs) >= 2 {
+			return true, ""
+		}
+		// decided by a helper's result (if !scan.step() { break }): every "stop" result of the helper is justified the same way
+		if depth < 2 {
+			for _, g := range guardsOnEdge(from, to) {
+				c, neg := stripNot(g.Cond)
+				call, ok := c.(*ssa.Call)
+				if !ok {
+					continue
+				}
+				h := call.Call.StaticCallee()
+				if h == nil {
+					continue
+				}
+				h = origin(h)
+				if h.Pkg == nil || !strings.HasPrefix(h.Pkg.Pkg.Path(), modPath) || len(h.Blocks) == 0 {
+					continue
+				}
+				stop := g.Truth != neg // the boolean the helper returned on this edge
+				all, n := true, 0
+				allInstrs(h, func(in ssa.Instruction) {
+					r, isR := in.(*ssa.Return)
+					if !isR || len(r.Results) == 0 {
+						return
+					}
+					last := r.Results[len(r.Results)-1]
+					if b, isC := constBool(last); isC {
+						if b != stop {
+							return
+						}
+						n++
+						gh := guardsAt(r.Block())
+						okR := nilShown(gh) >= 2
+						for _, x := range gh {
+							if is, over := isSizeGuard(x.Cond); is && over != x.Truth {
+								okR = true
+							}
+						}
+						// ... or the helper delegates the decision once more
+						if !okR {
+							for _, x := range gh {
+								if cc, isCall := x.Cond.(*ssa.Call); isCall && cc.Call.StaticCallee() != nil {
+									okR = okR || false
+								}
+							}
+						}
+						if !okR {
+							all = false
+						}
+					} else if ph, isPhi := last.(*ssa.Phi); isPhi {
+						for i, e := range ph.Edges {
+							if b, isC := constBool(e); isC && b == stop {
+								n++
+								ge := append(append([]Guard{}, guardsAt(ph.Block().Preds[i])...), guardsOnEdge(ph.Block().Preds[i], ph.Block())...)
+								if nilShown(ge) < 2 {
+									all = false
+								}
+							}
+						}
+					} else if cc, isCall := last.(*ssa.Call); isCall && cc.Call.StaticCallee() != nil {
+						// return e.nextVictimQueue(): the callee's stop results, under this return's guards
+						hh := origin(cc.Call.StaticCallee())
+						if nilShown(guardsAt(r.Block())) >= 2 {
+							n++ // whatever the delegate answers, both cursors are known to be exhausted here
+							return
+						}
+						_ = hh
+						all = false
+					}
+				})
+				if all && n > 0 {
+					return true, ""
+				}
+			}
+		}
+		return false, "exit " + blockDesc(from) + " -> " + blockDesc(to)
+	}
+	n := 0
+	for _, b := range fn.Blocks {
+		if len(b.Instrs) == 0 {
+			continue
+		}
+		iff, ok := b.Instrs[len(b.Instrs)-1].(*ssa.If)
+		if !ok {
+			continue
+		}
+		if is, _ := isSizeGuard(iff.Cond); !is || !isLoopHeader(b) {
+			continue
+		}
+		loop := naturalLoop(b)
+		for u := range loop {
+			for _, v := range u.Succs {
+				if loop[v] {
+					continue
+				}
+				n++
+				ok, why := exitOK(fn, u, v, 0)
+				cx.R.Check(ok, rule, funcName(fn), fmt.Sprintf("loop exit #%d", n), cx.P.where(u.Instrs[len(u.Instrs)-1]), "the loop is left only with weightedSize <= maximum or with both cursors nil ("+why+")")
+			}
+		}
+	}
+	cx.R.Check(n >= 1, rule, funcName(fn), "eviction loop found", cx.P.Pos(fn.Pos()), fmt.Sprintf("%d exit(s)", n))
+}
+
+// ---------------------------------------------------------------------------------------------------------------
+// C15.sizecopy: the table's striped size counter across helpers and resizes
+// ---------------------------------------------------------------------------------------------------------------
+
+// stripeAddr: v is the address of a stripe's counter (&t.size[i].c), directly or as the result of a one-line accessor of
+// the module; the IndexAddr that selects the stripe is returned.
+func stripeAddr(v ssa.Value, cF *types.Var) (*ssa.IndexAddr, bool) {
+	v = stripLoad(v)
+	if fa, ok := v.(*ssa.FieldAddr); ok && sameField(fieldOf(fa), cF) {
+		ia, _ := fa.X.(*ssa.IndexAddr)
+		return ia, true
+	}
+	if c, ok := v.(*ssa.Call); ok && c.Call.StaticCallee() != nil {
+		g := origin(c.Call.StaticCallee())
+		if g.Pkg != nil && strings.HasPrefix(g.Pkg.Pkg.Path(), modPath) && len(g.Blocks) == 1 {
+			var out *ssa.IndexAddr
+			found := false
+			allInstrs(g, func(y ssa.Instruction) {
+				if r, isR := y.(*ssa.Return); isR && len(r.Results) == 1 {
+					if fa, isF := r.Results[0].(*ssa.FieldAddr); isF && sameField(fieldOf(fa), cF) {
+						out, _ = fa.X.(*ssa.IndexAddr)
+						found = true
+					}
+				}
+			})
+			return out, found
+		}
+	}
+	return nil, false
+}
+
+func ruleC15SizeCopy(cx *Ctx) {
+	const rule = "C15.sizecopy"
+	cx.R.Rule(rule, 4, "the striped size counter is written only by addSize / addSizePlain, which add their delta to the stripe (len(size)-1) & bucket index; sumSize adds up every stripe; a resize credits the new table with exactly the number of nodes each bucket copier reports - the reported size equals the number of keys once quiescent")
+	cF := cx.needField(rule, hmPkg, "counterStripe", "c")
+	if cF == nil {
+		return
+	}
+	adders := map[*ssa.Function]bool{}
+	for _, n := range []string{"addSize", "addSizePlain"} {
+		fn := cx.need(rule, hmPkg, "mapTable", n)
+		if fn == nil {
+			continue
+		}
+		adders[origin(fn)] = true
+		// the stripe index and the amount
+		okIdx, okAmt := false, false
+		allInstrs(fn, func(in ssa.Instruction) {
+			var addr, amt ssa.Value
+			if isPkgFunc(in, "sync/atomic", "AddInt64") {
+				a := callCommon(in).Args
+				addr, amt = a[0], a[1]
+			}
+			if st, ok := in.(*ssa.Store); ok {
+				if _, isStripe := stripeAddr(st.Addr, cF); isStripe {
+					if b, isB := st.Val.(*ssa.BinOp); isB && b.Op.String() == "+" {
+						addr = st.Addr
+						amt = b.Y
+						if ld, isLd := b.Y.(*ssa.UnOp); isLd {
+							if _, isS := stripeAddr(ld.X, cF); isS {
+								amt = b.X
+							}
+						}
+					}
+				}
+			}
+			if addr == nil {
+				return
+			}
+			ia, isStripe := stripeAddr(addr, cF)
+			if !isStripe {
+				return
+			}
+			if paramIndexOf(stripConv(amt)) == 2 {
+				okAmt = true
+			}
+			if ia == nil {
+				return
+			}
+			t := newInliningTermBuilder().of(ia.Index)
+			// (len(size)-1) & bucketIdx
+			if t.Op == "&" && len(t.Args) == 2 {
+				for i := 0; i < 2; i++ {
+					if strings.HasPrefix(t.Args[i].String(), "-(builtin:len(field:size(") && strings.HasSuffix(t.Args[i].String(), ",1)") && t.Args[1-i].Op == "v" {
+						okIdx = true
+					}
+				}
+			}
+		})
+		cx.R.Check(okIdx && okAmt, rule, "hashmap.(*mapTable)."+n, "adds delta to stripe (len-1) & bucket", cx.P.Pos(fn.Pos()), fmt.Sprintf("index ok %v, amount is the delta %v", okIdx, okAmt))
+	}
+	// census of writers
+	for _, f := range cx.P.FuncsOfPkg(hmPkg) {
+		allInstrs(f, func(in ssa.Instruction) {
+			w := false
+			if st, ok := in.(*ssa.Store); ok {
+				if _, isS := stripeAddr(st.Addr, cF); isS {
+					w = true
+				}
+			}
+			if isPkgFunc(in, "sync/atomic", "AddInt64") || isPkgFunc(in, "sync/atomic", "StoreInt64") || isPkgFunc(in, "sync/atomic", "SwapInt64") {
+				if _, isS := stripeAddr(callCommon(in).Args[0], cF); isS {
+					w = true
+				}
+			}
+			if !w {
+				return
+			}
+			// a stripe accessor's caller writes through the returned pointer: the store is in the adder itself
+			cx.R.Check(adders[origin(outermost(f))], rule, funcName(f), "writer of the size counter", cx.P.where(in), "only addSize / addSizePlain change a stripe of the size counter")
+		})
+	}
+	// sumSize walks every stripe
+	if ss := cx.need(rule, hmPkg, "mapTable", "sumSize"); ss != nil {
+		okS := false
+		allInstrs(ss, func(in ssa.Instruction) {
+			var addr ssa.Value
+			if isPkgFunc(in, "sync/atomic", "LoadInt64") {
+				addr = callCommon(in).Args[0]
+			} else if ld, ok := in.(*ssa.UnOp); ok && sameField(fieldOf(ld.X), cF) {
+				addr = ld.X
+			}
+			if addr == nil || !sameField(fieldOf(addr), cF) {
+				return
+			}
+			fa, _ := stripLoad(addr).(*ssa.FieldAddr)
+			if fa == nil {
+				return
+			}
+			if ia, isIA := fa.X.(*ssa.IndexAddr); isIA {
+				if iv, first, bound, ok := indexInduction(ia.Index); ok && first == 0 {
+					if bc, isC := bound.(*ssa.Call); isC && isBuiltinCall(bc, "len") && sameField(fieldOf(bc.Call.Args[0]), fieldOf(ia.X)) {
+						// every iteration adds its stripe: the load dominates every back edge of the loop
+						every := true
+						var hdr *ssa.BasicBlock
+						if ph, isPhi := iv.(*ssa.Phi); isPhi {
+							hdr = ph.Block()
+						} else if b, isB := iv.(*ssa.BinOp); isB {
+							if ph, isPhi := b.X.(*ssa.Phi); isPhi {
+								hdr = ph.Block()
+							}
+						}
+						if hdr != nil {
+							loop := naturalLoop(hdr)
+							for _, p := range hdr.Preds {
+								if loop[p] && !in.Block().Dominates(p) {
+									every = false
+								}
+							}
+						}
+						okS = every
+					}
+				}
+			}
+		})
+		cx.R.Check(okS, rule, "hashmap.(*mapTable).sumSize", "sums stripes 0..len-1", cx.P.Pos(ss.Pos()), "the size is the sum of every stripe")
+	}
+	// resize: what a copier reports is what the new table is credited with
+	n := 0
+	for _, f := range cx.P.FuncsOfPkg(hmPkg) {
+		f := f
+		allInstrs(f, func(in ssa.Instruction) {
+			c := calleeOf(in)
+			if c == nil || !strings.HasPrefix(cname(c), "copyBucket") {
+				return
+			}
+			n++
+			v, isV := in.(ssa.Value)
+			credited := false
+			if isV {
+				for _, u := range usesOf(v) {
+					if g := calleeOf(u); g != nil && adders[origin(g)] {
+						a := callArgs(u)
+						if len(a) > 0 && a[len(a)-1] == v {
+							credited = true
+						}
+					}
+				}
+			}
+			cx.R.Check(credited, rule, funcName(f), fmt.Sprintf("copier #%d result credited", n), cx.P.where(in), "the number of nodes a bucket copier reports is added to the new table's size counter")
+		})
+	}
+	cx.R.Check(n >= 1, rule, "hashmap", "bucket copier calls found", "-", fmt.Sprintf("%d", n))
+}
